@@ -4,7 +4,7 @@ import proc_common as P
 
 def run(ctx):
     # X9: the premise of C13 ("a panic there terminates the whole guardian process") as theorems about node.go's supervisor configuration
-    st = core.run_extract(ctx, ["servicetree"])
+    st = core.run_extract(ctx, ["servicetree", "supervisor_options"])
     tree_cov = dict(ctx.cov.get("extractors") or {})
     rows = P.pipeline(ctx, "C13")
     ctx.cov.setdefault("extractors", {}).update(tree_cov)
